@@ -28,6 +28,12 @@ Definition setting_valid (inst : setting) (same_ns : list setting) (nodes : list
 Definition settings_of_ns (ns : name) (all : list setting) : list setting :=
   filter (fun s => N.eqb (s_ns s) ns) all.
 
-(** one reconcile: the (status, error set) pair it leaves on the object *)
-Definition setting_sync (inst : setting) (all : list setting) (nodes : list node) : name * bool :=
-  if setting_valid inst (settings_of_ns (s_ns inst) all) nodes then (SET_VALID, false) else (SET_ERROR, true).
+(** one reconcile: the (status, error set) pair it leaves on the object.  [fail_settings] / [fail_nodes]: the List of
+    the settings / of the nodes fails.  Without the list of settings no verdict is possible: the phase is left as it
+    was (and the error text cleared); without the nodes the setting is put in error. *)
+Definition setting_sync (inst : setting) (all : list setting) (nodes : list node) (fail_settings fail_nodes : bool)
+  : name * bool :=
+  if negb (has_reference inst) then (SET_ERROR, true)
+  else if fail_settings then (s_status inst, false)
+  else if fail_nodes then (SET_ERROR, true)
+  else if setting_valid inst (settings_of_ns (s_ns inst) all) nodes then (SET_VALID, false) else (SET_ERROR, true).
